@@ -179,7 +179,8 @@ class Source:
         pat = {"struct": r"\bstruct\s+", "enum": r"\benum\s+", "const": r"\bconst\s+", "type": r"\btype\s+"}[kind]
         hits = []
         for m in re.finditer(pat + re.escape(name) + r"\b", self.masked):
-            if self.depth[m.start()] != 0:
+            # items are looked for at the top level; `nth=0` also accepts an item nested in a function body
+            if self.depth[m.start()] != 0 and nth != 0:
                 continue
             start = line_start(self.text, m.start())
             if kind in ("struct", "enum"):
@@ -661,6 +662,79 @@ def rule_R22flat(text, applied):
     return t
 
 
+def rule_R23(text, applied):
+    """`for (A, B) in E1.version_sets(P).zip(E2) {` -> index loop over the shorter of the two sequences (std definition
+    of Iterator::zip): `let vs_ = vversion_sets(E1, P); let mut zi_: usize = 0; while zi_ < vs_.len() && zi_ < E2.len()
+    { let A = vs_[zi_]; let B = &E2[zi_]; zi_ += 1;` (continue/break keep their meaning).  vversion_sets returns the
+    sequence that Requirement::version_sets yields (trusted helper)."""
+    cnt = 0
+    while True:
+        m_text = mask(text)
+        m = re.search(r"\bfor\s*\(\s*(\w+)\s*,\s*(\w+)\s*\)\s*in\s+([\w\.]+?)\s*\.\s*version_sets\(([^()]*(?:\([^()]*\))?[^()]*)\)\s*\.\s*zip\(\s*([\w\.]+)\s*\)\s*\{", m_text)
+        if not m:
+            break
+        a, b, e1, p_, e2 = m.group(1), m.group(2), m.group(3), " ".join(text[m.start(4):m.end(4)].split()), m.group(5)
+        head = (f"let vs_ = vversion_sets({e1}, {p_}); let mut zi_: usize = 0; while zi_ < vs_.len() && zi_ < {e2}.len() "
+                f"{{ let {a} = vs_[zi_]; let {b} = &{e2}[zi_]; zi_ += 1;")
+        text = text[:m.start()] + _keep_newlines(text[m.start():m.end()], head) + text[m.end():]
+        cnt += 1
+    if cnt:
+        applied.append(f"R23x{cnt}")
+    return text
+
+
+def rule_R24(text, applied):
+    """`X.iter().try_fold(INIT, |ACC, &C| { BODY })` -> the std definition of try_fold as a loop:
+      { let mut acc_ = INIT; let mut res_ = None; let mut ti_: usize = 0;
+        while ti_ < X.len() { let ACC = acc_; let C = X[ti_]; ti_ += 1;
+            let step_ = { BODY' };                       // BODY' = BODY with the closure's `return E;` -> `{ res_ = Some(E); break; }`
+            match step_ { ControlFlow::Continue(c_) => { acc_ = c_; } ControlFlow::Break(b_) => { res_ = Some(ControlFlow::Break(b_)); break; } } }
+        match res_ { Some(r_) => r_, None => ControlFlow::Continue(acc_) } }"""
+    cnt = 0
+    while True:
+        m_text = mask(text)
+        m = re.search(r"([\w\.]+?)\s*\.\s*iter\(\)\s*\.\s*try_fold\s*\(", m_text)
+        if not m:
+            break
+        x = m.group(1)
+        op = m.end() - 1
+        cp = match_close(m_text, op)
+        # INIT = everything up to the top-level comma before the closure
+        d = 0
+        bar = -1
+        for q in range(op + 1, cp):
+            ch = m_text[q]
+            if ch in "([{":
+                d += 1
+            elif ch in ")]}":
+                d -= 1
+            elif ch == "|" and d == 0:
+                bar = q
+                break
+        if bar < 0:
+            raise ExtractError("R24: try_fold closure not found")
+        init = text[op + 1:bar].rstrip().rstrip(",")
+        cm = re.match(r"\|\s*(\w+)\s*,\s*&\s*(\w+)\s*\|\s*\{", m_text[bar:cp])
+        if not cm:
+            raise ExtractError("R24: closure is not of the form |acc, &x| { .. }")
+        acc, c = cm.group(1), cm.group(2)
+        ob = bar + cm.end() - 1
+        cb = match_close(m_text, ob)
+        body = text[ob + 1:cb]
+        if re.search(r"\|[^|]*\|", mask(body)):
+            raise ExtractError("R24: nested closure in try_fold body")
+        body, _n = _sub_masked(body, r"\breturn\s+([^;]+);", lambda mm, s_: "{ res_ = Some(" + s_[mm.start(1):mm.end(1)] + "); break; }")
+        head = (f"{{ let mut acc_ = {init}; let mut res_ = None; let mut ti_: usize = 0; while ti_ < {x}.len() "
+                f"{{ let {acc} = acc_; let {c} = {x}[ti_]; ti_ += 1; let step_ = {{")
+        tail = ("}; match step_ { ControlFlow::Continue(c_) => { acc_ = c_; } ControlFlow::Break(b_) => { res_ = Some(ControlFlow::Break(b_)); break; } } } "
+                "match res_ { Some(r_) => r_, None => ControlFlow::Continue(acc_) } }")
+        text = text[:m.start()] + _keep_newlines(text[m.start():ob + 1], head) + body + _keep_newlines(text[cb:cp + 1], tail) + text[cp + 1:]
+        cnt += 1
+    if cnt:
+        applied.append(f"R24x{cnt}")
+    return text
+
+
 def rule_R6(text, applied):
     """receiver `mut self` -> `self` plus `let mut self_ = self;` as first statement; `self` -> `self_` in the body."""
     m_text = mask(text)
@@ -802,6 +876,9 @@ def rule_R8frozenindex(text, applied, arg=None):
     """`M[&K]` on a FrozenMap stand-in -> `(*M.vindex(&K))` (Index panics when the key is absent: precondition);
     arg = M (exact path)."""
     t, n = _sub_masked(text, r"(?<![\w\.])" + re.escape(arg) + r"\[\s*&\s*([^\]]+)\]", lambda m, s: f"(*{arg}.vindex(&{m.group(1).strip()}))")
+    # the key may already be a reference (`M[k]` with k: &K)
+    t, n2 = _sub_masked(t, r"(?<![\w\.])" + re.escape(arg) + r"\[\s*(\w+)\s*\]", lambda m, s: f"(*{arg}.vindex({m.group(1)}))")
+    n += n2
     if n:
         applied.append(f"R8frozenindex({arg})x{n}")
     return t
@@ -1313,6 +1390,7 @@ def rule_const(text, applied):
 
 
 RULES = {
+    "R23": rule_R23, "R24": rule_R24,
     "R16push": rule_R16push, "R22": rule_R22, "R22flat": rule_R22flat,
     "R20": rule_R20, "R21": rule_R21, "R7stackrev": rule_R7stackrev,
     "R1": rule_R1, "R2": rule_R2, "R2ref": rule_R2ref, "R3": rule_R3, "R4": rule_R4, "R5": rule_R5,
@@ -1562,12 +1640,14 @@ def build_fn(src: Source, selector, opts, sections, emitter: Emitter, unit_rules
                     raise ExtractError(f"{selector}: loop /{hm.group(2)}/ #{kk} not found (lost anchor)")
                 cb_ = match_close(m_text, hits[kk - 1][1])
                 add_insert(cb_ + 1 if hm.group(1) == "afterloop" else (hits[kk - 1][1] + 1 if hm.group(1) == "startloop" else cb_), "\n" + val.rstrip("\n") + "\n")
-            elif key.startswith("hint "):
-                hm = re.match(r"hint (before|after) /(.*)/\s*(\d+)?$", key)
+            elif key.startswith("hint ") or key.startswith("hint? "):
+                hm = re.match(r"hint\??\s+(before|after) /(.*)/\s*(\d+)?$", key)
                 if not hm:
                     raise ExtractError(f"bad hint directive `{key}`")
                 where, rx, k = hm.group(1), hm.group(2), int(hm.group(3) or 1)
                 ms = [m for m in re.finditer(rx, m_text[sig_end:body_close + 1])]
+                if len(ms) < k and key.startswith("hint? "):
+                    continue
                 # also allow matching against unmasked text (string contents) if no masked match
                 if len(ms) < k:
                     raise ExtractError(f"{selector}: hint anchor /{rx}/ #{k} not found (lost anchor)")
